@@ -126,9 +126,14 @@ def specialise(prog, caller, call, callee=None):
             continue
         if isinstance(actual, ast.Constant) and (isinstance(actual.value, (str, int, float, bool)) or actual.value is None):
             consts[formal] = actual
+        elif isinstance(actual, (ast.List, ast.Tuple)) and all(isinstance(e, ast.Constant) for e in actual.elts):
+            consts[formal] = actual                   # a literal list of constants: every use gets its own copy, which reads cannot tell apart
         elif isinstance(actual, ast.Attribute) and isinstance(actual.value, ast.Name) and actual.value.id == "self" and caller.cls and caller.cls == callee.cls \
                 and prog.method(caller.cls, actual.attr) is not None:
             consts[formal] = actual                   # a bound method of the receiver, handed on to be called
+    for formal, dv in callee.defaults().items():
+        if formal not in b and isinstance(dv, ast.Constant):
+            consts[formal] = dv                       # a parameter the site leaves at its constant default
     if not consts:
         return None
     for n in ast.walk(callee.node):
@@ -148,20 +153,20 @@ def specialise(prog, caller, call, callee=None):
         extras = [k for k in b if not k.startswith("*") and k not in formals]
         other_uses = [x for x in ast.walk(node) if isinstance(x, ast.Name) and x.id == kwname
                       and not any(isinstance(c, ast.Call) and any(kw.arg is None and kw.value is x for kw in c.keywords) for c in ast.walk(node))]
-        if other_uses:
-            return None
-        for c in ast.walk(node):
-            if isinstance(c, ast.Call):
-                newkw = []
-                for kw in c.keywords:
-                    if kw.arg is None and isinstance(kw.value, ast.Name) and kw.value.id == kwname:
-                        newkw.extend(ast.keyword(arg=k, value=ast.copy_location(ast.Name(id=k, ctx=ast.Load()), kw.value)) for k in extras)
-                    else:
-                        newkw.append(kw)
-                c.keywords = newkw
-        node.args.kwarg = None
-        node.args.args.extend(ast.arg(arg=k) for k in extras)
-        node.args.defaults = list(node.args.defaults)
+        if not other_uses:
+            for c in ast.walk(node):
+                if isinstance(c, ast.Call):
+                    newkw = []
+                    for kw in c.keywords:
+                        if kw.arg is None and isinstance(kw.value, ast.Name) and kw.value.id == kwname:
+                            newkw.extend(ast.keyword(arg=k, value=ast.copy_location(ast.Name(id=k, ctx=ast.Load()), kw.value)) for k in extras)
+                        else:
+                            newkw.append(kw)
+                    c.keywords = newkw
+            node.args.kwarg = None
+            node.args.args.extend(ast.arg(arg=k) for k in extras)
+            node.args.defaults = list(node.args.defaults)
+        # (a **options dict that is also looked at as a dict - in a cache key, say - is left as it is)
 
     class Subst(ast.NodeTransformer):
         def visit_Name(self, n):
@@ -258,6 +263,26 @@ def specialise(prog, caller, call, callee=None):
     sf = FuncInfo(callee.mod, callee.cls, node)
     sf.specialised_for = {k: unparse(v) for k, v in consts.items()}
     return sf
+
+
+def final_forward(prog, f, max_hops=3):
+    """follow `return <call>` through helpers on the same side (each specialised for the constants its call site passes) to the first
+    call that leaves the class: -> (FuncInfo in which it is written, Call node, callee FuncInfo) or None"""
+    cur = f
+    for _ in range(max_hops + 1):
+        rets = returns_of(cur)
+        if len(rets) != 1 or not isinstance(_resolve_local(cur, rets[0].value) if rets[0].value is not None else None, ast.Call):
+            return None
+        call = _resolve_local(cur, rets[0].value)
+        callee = prog.resolve_call(cur, call)
+        if callee is None:
+            return None
+        if (callee.mod is cur.mod and callee.cls == cur.cls):
+            sf = specialise(prog, cur, call, callee)
+            cur = sf if sf is not None else callee
+            continue
+        return cur, call, callee
+    return None
 
 
 def specialise_returns(prog, f, consts, keep=(), depth=0):
@@ -436,7 +461,7 @@ def memo_forward(prog, f):
     return st.value, inline_locals(f, st.targets[0].slice), table
 
 
-def check_wrapper(ck, prog, rule, api_rel, api_qual, backend_key, argmap=None, allow_pre=(), void=False, memo=None, _hop=0, _f=None):
+def check_wrapper(ck, prog, rule, api_rel, api_qual, backend_key, argmap=None, allow_pre=(), void=False, memo=None, _hop=0, _f=None, skip_returns=()):
     """a thin wrapper: what it returns (or, for void=True, the one backend call it makes) is `<receiver>.<backend>(...)` with each
     of its own parameters (argmap, default: all, same name) bound to the stated formal.
     Shape problems (no return, a returned expression that is not a resolvable call) are 'undecided'; a resolvable call to a
@@ -457,7 +482,7 @@ def check_wrapper(ck, prog, rule, api_rel, api_qual, backend_key, argmap=None, a
         if len(calls) != 1:
             raise Undecided("unrecognised shape: %s makes %d backend calls (expected one)" % (f.qual, len(calls)), f.loc())
     else:
-        rets = returns_of(f)
+        rets = [r for r in returns_of(f) if id(r) not in skip_returns]          # (returns the caller has judged by a rule of its own)
         if not rets:
             raise Undecided("unrecognised shape: %s has no return statement" % f.qual, f.loc())
         mf = memo_forward(prog, f)
@@ -526,6 +551,14 @@ def check_wrapper(ck, prog, rule, api_rel, api_qual, backend_key, argmap=None, a
                               slot=own_p, where=f.loc(v))
                 continue
             ok = isinstance(actual, ast.Name) and actual.id == own_p
+            if not ok and isinstance(actual, ast.IfExp):
+                # `<default> if p is None else p`: every value the caller passes is forwarded as it is; None (no value) gets a default
+                tt = unparse(actual.test).replace(" ", "")
+                other = actual.orelse if tt in (own_p + "isNone", own_p + "==None") else (actual.body if tt in (own_p + "isnotNone", own_p + "!=None") else None)
+                ok = isinstance(other, ast.Name) and other.id == own_p
+            if not ok and isinstance(actual, ast.BoolOp) and isinstance(actual.op, ast.Or) and len(actual.values) == 2 and isinstance(actual.values[0], ast.Name) \
+                    and actual.values[0].id == own_p and unparse(actual.values[1]).replace(" ", "") in ("{}", "[]", "()", "''", '""', "dict()", "list()", "tuple()"):
+                ok = True             # `p or {}`: the only values replaced are the empty container itself and None
             if not ok and isinstance(actual, ast.Call) and len(actual.args) == 1 and not actual.keywords and isinstance(actual.args[0], ast.Name) and actual.args[0].id == own_p:
                 # the parameter goes through a checking helper first: fine if the helper hands back exactly what it was given
                 pt = passthrough(prog, f, actual)
